@@ -56,6 +56,7 @@ def table(facts, key, fields=None):
     """[(condsig, tokens, outcome, effects, state)]"""
     rows = []
     for st, v in run(facts, key, fields):
+        st.buf = emit.single_element_joins(st.buf, st.conds)
         text = emit.canon_parts(st.buf)
         eff = []
         for e in st.effects:
